@@ -33,6 +33,9 @@ CFG = "parol::grammar::cfg::Cfg"
 GEN = "parol::utils::generate_name"
 INSERT = "std::vec::Vec::insert"
 PUSH = "std::vec::Vec::push"
+SYMBOL = "parol::grammar::symbol::Symbol"
+STRUCTURAL_TRAITS = {"std::cmp::PartialEq", "std::cmp::Eq", "std::cmp::PartialOrd", "std::cmp::Ord", "std::hash::Hash",
+                     "std::clone::Clone", "std::fmt::Debug"}
 
 
 def closure_args(facts, body, call):
@@ -53,6 +56,7 @@ def reads_rhs_and_start(facts, cg, roots, depth=3):
     frontier = list(roots)
     rhs = False
     st = False
+    name = False
     for _ in range(depth + 1):
         nxt = []
         for b in frontier:
@@ -60,6 +64,9 @@ def reads_rhs_and_start(facts, cg, roots, depth=3):
             if k in seen:
                 continue
             seen.add(k)
+            if b.impl_trait in STRUCTURAL_TRAITS:
+                # whole-value comparisons (derived PartialEq/Ord/Hash ..) are not a comparison of the *name*
+                continue
             if b.calls_to(GET_R):
                 rhs = True
             for bi, kind, p, line in all_places(b):
@@ -69,11 +76,16 @@ def reads_rhs_and_start(facts, cg, roots, depth=3):
                             rhs = True
                         if e[3] == CFG and e[2] == "st" and kind == "r":
                             st = True
+                for i, e in enumerate(p[1:]):
+                    if isinstance(e, list) and e[0] == "d" and e[1] == "N" and i + 2 < len(p):
+                        nx = p[i + 2]
+                        if isinstance(nx, list) and nx[0] == "f" and nx[1] == 0 and nx[3] == SYMBOL:
+                            name = True
             for t, info in cg.out_edges(b):
                 if t.crate == PA:
                     nxt.append(t)
         frontier = nxt
-    return rhs, st
+    return rhs, st, name
 
 
 def check(ctx):
@@ -110,8 +122,8 @@ def check(ctx):
             if k and k[0] == "call":
                 call, neg = k[1], k[2]
                 roots = closure_args(facts, body, call) + [t for t in cg.targets_of_call(call) if t.crate == PA]
-                rhs, st = reads_rhs_and_start(facts, cg, roots)
-                if rhs and st:
+                rhs, st, name = reads_rhs_and_start(facts, cg, roots)
+                if rhs and name:
                     # polarity: the unchanged return must lie on the "start symbol NOT found" edge
                     vals = {0} if not neg else {v for v, _t in body.switch_edges(a) if v != 0}
                     if only_via_edge(body, a, vals, b):
@@ -120,9 +132,10 @@ def check(ctx):
                 count_test = True
         ctx.check(found is not None, "R12.1", "augment_grammar|unchanged-return-reads-rhs",
                   "the unchanged return (bb%d) is taken only on the false edge of a test (%s) whose closure reads "
-                  "right-hand sides (Pr::get_r) and Cfg.st" % (b, short(found.path) if found else ""),
-                  "augment_grammar returns the grammar unchanged without any test that looks for the start symbol on "
-                  "a right-hand side: the start symbol of the LR grammar may then occur on a right-hand side",
+                  "right-hand sides (Pr::get_r) and compares the name component of Symbol::N" % (b, short(found.path) if found else ""),
+                  "augment_grammar returns the grammar unchanged without a test that scans the right-hand sides for the "
+                  "*name* of the start symbol (Symbol::N field 0; a whole-Symbol comparison misses clipped / typed / "
+                  "member-named occurrences): the start symbol of the LR grammar may then occur on a right-hand side",
                   where(body, line))
         ctx.check(count_test, "R12.1", "augment_grammar|unchanged-return-counts-start-productions",
                   "the unchanged return also depends on a comparison of the number of start productions",
